@@ -170,6 +170,21 @@ def run_script(ce, script, d=2, seed=0, normalize=True):
                         st["arm"] = None
                         return
                     raise
+                except ValueError as e:
+                    # the same finding one step later: a near-singular cluster covariance the constructor ACCEPTED whose inverse is
+                    # numerically indefinite, so the tpCN kernel's quadratic form is negative and numpy refuses the gamma draw
+                    # ("scale < 0") inside parallel_mcmc -- exactly the model's step `cl` (the kernel raised); anything else is re-raised
+                    tb, frames = e.__traceback__, []
+                    while tb is not None:
+                        frames.append(os.path.basename(tb.tb_frame.f_code.co_filename))
+                        tb = tb.tb_next
+                    if str(e).startswith("scale < 0") and "mcmc.py" in frames and st["it_open"]:
+                        tokens.append("cl")
+                        st["it_open"] = False
+                        st["natural_f24_kernel"] = st.get("natural_f24_kernel", 0) + 1
+                        st["arm"] = None
+                        return
+                    raise
                 if st["arm"] is not None:       # the armed failure never fired (no annealing iteration yet): disarm
                     st["arm"] = None
 
@@ -199,14 +214,16 @@ def run_script(ce, script, d=2, seed=0, normalize=True):
                     tokens.append(f"R{saved_iter}")
                     do_run(op[1], resume_state_path=path)
     except Exception as e:  # noqa
-        problem = f"{type(e).__name__}: {e}"
+        import traceback as _tb
+        where = " < ".join(f"{os.path.basename(f.filename)}:{f.lineno}:{f.name}" for f in reversed(_tb.extract_tb(e.__traceback__)[-4:]))
+        problem = f"{type(e).__name__}: {e} [{where}]"
     finally:
         shutil.rmtree(tmp, ignore_errors=True)
     cl = s._core.trainer.clusterer if s is not None else None
     it = s.state.get_current("iter") if s is not None else None
     return {"events": " ".join(e for e in log if e != "|"), "segments": " ".join(log), "tokens": tokens, "iter": None if it is None else int(it), "problem": problem,
             "gen": getattr(cl, "_c14_gen", None), "flag": bool(s._core.trainer._clusterer_fitted) if s is not None else None,
-            "natural_f24": st.get("natural_f24", 0)}
+            "natural_f24": st.get("natural_f24", 0), "natural_f24_kernel": st.get("natural_f24_kernel", 0)}
 
 
 def _gen_script(rng):
@@ -266,6 +283,8 @@ def correspond_cadence_x(tier, drv):
             c.count("step_" + (t if t in ("w", "a", "ce", "ct", "cl") else t[0]))
         if r["natural_f24"]:
             c.count("constructor_refused_a_degenerate_cluster_by_itself(F24, modelled as step ct)", r["natural_f24"])
+        if r.get("natural_f24_kernel"):
+            c.count("kernel_raised_on_a_numerically_indefinite_cluster_covariance_by_itself(F24 family, modelled as step cl)", r["natural_f24_kernel"])
         if r["problem"]:
             c.disagree(input={"ce": ce, "script": script, "seed": seed}, impl=f"raised {r['problem']}", model="the script completes",
                        kind="script", ce=ce, script=script, seed=seed)
